@@ -23,7 +23,7 @@ Has(out, s) == \E j \in 1..Len(out) : out[j] = s
 PreSvc(run, i, k) == IF i = 1 THEN [trusted |-> FALSE, dstate |-> "None", derr |-> FALSE, reg |-> 0, cnt |-> -1] ELSE run.steps[i - 1].svc[k]
 
 \* ghost facts derived from the actions alone
-NewConnSteps(run) == SelectSeq([i \in 1..Len(run.steps) |-> i], LAMBDA i : run.steps[i].a.a = "NewConn")
+NewConnSteps(run) == SelectSeq([i \in 1..Len(run.steps) |-> i], LAMBDA i : run.steps[i].a.a \in {"NewConn", "ClosedRe"})
 SkiOfConn(run, j) == run.steps[NewConnSteps(run)[j]].a.k
 Intent(run, i, k) ==    \* user intent for k before step i: registered (or trust earned in a handshake) and not unregistered / cancelled since
     LET idx == {j \in 1..(i - 1) :
@@ -68,10 +68,12 @@ JudgeStep(run, i) ==
                        \cup (IF pre # 0 /\ pre # a.i /\ Has(s.out, "Disconnected:" \o k)
                              THEN {<<"C11", "disconnect-notified-for-stale-connection">>} ELSE {})
               ELSE {}
+        \* a connection registered while the application was being told about the end of its predecessor stays registered
+        b7 == IF a.a = "ClosedRe" /\ s.svc[a.k].reg = 0 THEN {<<"C11", "newer-registry-entry-dropped", "during-the-disconnect-notification">>} ELSE {}
         \* C01 at the hub: whatever happened, the hub calls a service trusted (and answers its connections 'paired') only while
         \* the user's last word for it is Register, or trust was earned in a handshake after that
         b6 == {<<"C01", "hub-trusts-a-service-without-the-users-word", k, a.a>> : k \in {k \in Skis : s.svc[k].trusted /\ ~Intent(run, i + 1, k)}}
-    IN  b1 \cup b2 \cup b3 \cup b4 \cup b5 \cup b6
+    IN  b1 \cup b2 \cup b3 \cup b4 \cup b5 \cup b6 \cup b7
 
 \* the last set-up / disconnect notification of k in the whole run: "Setup", "Disconnected" or "none"
 LastWord(run, k) ==
